@@ -24,12 +24,12 @@ import (
 // (signals, late frames, further reads, further writes) must not crash the process.
 
 type c12CloseCase struct {
-	VPN       bool `json:"raw_ip_link_type"`
-	Traffic   int  `json:"matching_frames_per_ms_while_open"` // 0: the reader is parked in poll when the socket is closed
-	OpenMs    int  `json:"open_for_ms"`
-	Signals   int  `json:"signals_after_close"`
-	LateFrames int `json:"late_frames_after_close"`
-	Sockets   int  `json:"sockets_one_after_the_other"` // like the chunks of a port scan
+	VPN        bool `json:"raw_ip_link_type"`
+	Traffic    int  `json:"matching_frames_per_ms_while_open"` // 0: the reader is parked in poll when the socket is closed
+	OpenMs     int  `json:"open_for_ms"`
+	Signals    int  `json:"signals_after_close"`
+	LateFrames int  `json:"late_frames_after_close"`
+	Sockets    int  `json:"sockets_one_after_the_other"` // like the chunks of a port scan
 }
 
 func c12CloseChild() {
